@@ -1442,6 +1442,13 @@ def a64_cases(tier):
         for v in (0, 1):
             for d in (0x4000, -0x4000, R - 4096):
                 add(isa, s0, s0 + d, 0, kind="bool", v=v)
+    # a second installation on a function that already carries one
+    for isa, s0 in (("a64-linux", src0), ("a64-macos", msrc)):
+        for _ in range(10 if q else 300):
+            add(isa, s0 + 4 * rnd.randrange(0, 1 << 16), s0 + (rnd.randrange(-R + 0x10000, R - 0x10000) & ~0xfff), rnd.getrandbits(64))
+            cases[-1]["prev_fake"] = rnd.getrandbits(64) | 4
+        add(isa, s0 + 64, s0 + 0x40000, 0, kind="bool", v=1)
+        cases[-1]["prev_fake"] = 0x0000aaaabbbbccc0
     n_rand = 300 if q else 20000
     for _ in range(n_rand):
         isa = rnd.choice(["a64-linux", "a64-macos"])
@@ -1474,6 +1481,15 @@ def arm_cases(tier):
                 add(isa, 0x8000 | align, fake & ~1 | thumb_fake)
         for v in (0, 1):
             add(isa, 0x20000 | align, 0, kind="bool", v=v)
+        # the function already carries a fake (the entry holds the library's own sequence): a second installation on top
+        for thumb_fake in (0, 1):
+            for thumb_prev in (0, 1):
+                for _ in range(6 if q else 200):
+                    src = (rnd.getrandbits(32) & ~3 | align) or (64 | align)
+                    add(isa, src, rnd.getrandbits(32) & ~1 | thumb_fake)
+                    cases[-1]["prev_fake"] = (rnd.getrandbits(32) & ~1 | thumb_prev) or 2
+                cases.append({"isa": isa, "kind": "bool", "src": 0x30000 | align, "tramp": 0, "fake": 0, "v": thumb_fake,
+                              "prev_fake": 0x00512340 | thumb_prev})
     return cases
 
 
